@@ -1220,6 +1220,12 @@ class Scenario(TagAndStatusStatement, Replayable):
                     #   * Undefined steps are not detected (by intention).
                     #   * Step skipped remaining scenario.
                     step.status = Status.skipped
+        else:
+            # -- SCENARIO BODY IS NOT EXECUTED (hook-error, aborted run):
+            # Forget step results of an earlier run of this scenario (retry).
+            for step in self.all_steps:
+                if step.status not in (Status.untested, Status.skipped):
+                    step.reset()
 
         self.clear_status()  # -- ENFORCE: compute_status() after run.
         if not run_scenario and not self.steps:
